@@ -213,6 +213,15 @@ func init() {
 				}
 				cases = append(cases, Case{"prog": randomProg(rng, 6, 0.2, 7), "mode": mode, "key": key, "variants": v, "seed": rng.Int63()})
 			}
+			// settings blocks with several entries, free texts that contain `;` (data there, not a comment), every gap varied
+			semi := []string{"oh; yes", ";-) intro", "a;b;c", "x ;", "; ;", "semi;colon[1]"}
+			for i := 0; i < n/6+6; i++ {
+				p := randomProg(rng, 4, 0.2, 7)
+				for j := range p {
+					p[j].Meta = [][2]string{{"txt", semi[rng.Intn(len(semi))]}, {"bpm", fmt.Sprint(60 + rng.Intn(100))}, {"lic", semi[rng.Intn(len(semi))]}, {"key", supportedKeys[rng.Intn(28)]}, {"mrk", "m" + semi[rng.Intn(len(semi))]}}[:2+rng.Intn(4)]
+				}
+				cases = append(cases, Case{"prog": p, "mode": "degree", "key": "", "variants": 4, "seed": rng.Int63()})
+			}
 			// symbols that open with punctuation or a sign (text conv does not look symbols up): with and without the `_`
 			odd := []string{"-5", "(b5)", ".5", "*", "!x", ":3", "°7", "ø", "+", "'", "\"q", "-", "(9)", "^7", "~", "|x", "@"}
 			for i, sy := range odd {
